@@ -48,7 +48,19 @@ pub fn check_encoding(text: &str, hls: &[(u32, u32, HlTag)]) -> Result<(), (Stri
             return Err((format!("reference: range {}..{} not on positions", h.0, h.1), "harness"));
         };
         if s.line != e.line {
-            return Err(("reference: multi-line range".into(), "harness"));
+            // a range over several lines is sent as one token per line, for the part of the range
+            // that lies inside the line's content (nothing for a part that is empty)
+            for (li, (ls, le)) in lines.iter().enumerate() {
+                let (a, b) = ((h.0 as usize).max(*ls), (h.1 as usize).min(*le));
+                if a < b {
+                    if let (Some(ps), Some(pe)) = (doc.pos_of(a), doc.pos_of(b)) {
+                        if ps.line as usize == li && pe.line as usize == li {
+                            want.push((ps.line, ps.col, pe.col - ps.col, glas::verif::semantic_type_index(h.2), 0u32));
+                        }
+                    }
+                }
+            }
+            continue;
         }
         want.push((s.line, s.col, e.col - s.col, glas::verif::semantic_type_index(h.2), 0u32));
     }
@@ -281,7 +293,8 @@ impl Property for C19 {
                 let mut cands: Vec<(u32, u32)> = vec![];
                 for (i, &a) in bounds.iter().enumerate() {
                     for &b in &bounds[i + 1..] {
-                        if !text[a..b].contains('\n') {
+                        // single-line ranges (identifiers) and, less densely, ranges over line breaks
+                        if !text[a..b].contains('\n') || (a + b) % 2 == 0 {
                             cands.push((a as u32, b as u32));
                         }
                     }
